@@ -35,7 +35,7 @@ def run(check: Check) -> None:
     )
     check.info["rule"] = "case = (formula, which column changes kind / gains a level, output)"
     check.bounds.update({"formulas": FORMULAS, "rows": mc.NROWS})
-    check.out_of_scope += ["the absent-level half is exercised in C04", "columns changing kind inside Python-expression factors other than the menu"]
+    check.out_of_scope += ["levels that lose all their rows are exercised in C04", "columns changing kind inside Python-expression factors other than the menu"]
     n = mc.NROWS
     dtrain = mc.full_frame(A_TRAIN, B_TRAIN)
     from . import ch_c20_run
@@ -126,3 +126,42 @@ def run(check: Check) -> None:
                 rig.run_sym(check, "unseen_levels", fn, claims, replay=rep, timeout_ms=tmo,
                             on_exception=lambda e, pc: [(f"unseen level raised {type(e).__name__} instead of warning", False)], case_id=f"{formula}:{out}:{var} gains a level",
                             sample={"formula": formula, "follow_up": f"{var} gains level 'NEW' in rows 1 and 4; a, b symbolic"})
+            # --- the follow-up frame DECLARES other categories than were recorded (another order; extra levels that no row holds;
+            #     extra levels some rows hold): the recorded levels, in recorded order, decide the columns - nothing is renamed,
+            #     added or re-referenced, and only observed unseen levels are announced
+            for var in sorted(uses & {"A", "B"}):
+                base_levels = {"A": mc.A_LEVELS, "B": mc.B_LEVELS}[var]
+                rows = {"A": mc.A_ROWS, "B": mc.B_ROWS}[var]
+                for how, cats in (("reversed", list(reversed(base_levels))), ("extra-declared", ["_a"] + list(base_levels) + ["zz"]),
+                                  ("reversed+extra", ["zz"] + list(reversed(base_levels)) + ["_a"])):
+                    def fn(var=var, cats=cats):
+                        a, b = sym_vector("a", n), sym_vector("b", n)
+                        d1, d2 = mc.cat_frame(), mc.cat_frame()
+                        d2[var] = pandas.Categorical(rows, categories=cats, ordered=(len(cats) % 2 == 0))
+                        with symbolic_pipeline(), warnings.catch_warnings(record=True) as w:
+                            warnings.simplefilter("always")
+                            ref = spec.get_model_matrix(d1, context={"a": a, "b": b})
+                            got = spec.get_model_matrix(d2, context={"a": a, "b": b})
+                            again = spec.get_model_matrix(d1, context={"a": a, "b": b})
+                            nw = len([x for x in w if issubclass(x.category, DataMismatchWarning)])
+                        return ref, got, again, nw
+
+                    def claims(res, out=out):
+                        ref, got, again, nw = res
+                        lr, cr = mc.matrix_cells(ref, out)
+                        for tag, m in (("redeclared", got), ("recorded spec afterwards", again)):
+                            lg, cg = mc.matrix_cells(m, out)
+                            yield f"{tag}: same column names in the same order", lg == labels0 and lr == labels0
+                            yield f"{tag}: same shape", cg.shape == cr.shape
+                            if cg.shape == cr.shape:
+                                yield f"{tag}: same cells for all values", conj([same_cell(cg[i, j], cr[i, j]) for i in range(n) for j in range(len(lg))])
+                        yield "no DataMismatchWarning: every observed level was recorded", nw == 0
+
+                    def rep(model, label, var=var, formula=formula, out=out, cats=cats):
+                        p = {"kind": "c09_redeclared", "formula": formula, "output": out, "var": var, "cats": cats}
+                        bad = replays.run(p)
+                        return (f"redeclared-categories::{var}", bad, p) if bad else None
+
+                    rig.run_sym(check, "redeclared_categories", fn, claims, replay=rep, timeout_ms=tmo,
+                                on_exception=lambda e, pc: [(f"redeclared categories raised {type(e).__name__}", False)], case_id=f"{formula}:{out}:{var} dtype {how}",
+                                sample={"formula": formula, "follow_up": f"{var} arrives with declared categories {cats}; same rows; a, b symbolic"})
